@@ -275,7 +275,7 @@ func c18CGen(rt *rapid.T) c18CCase {
 			var ops []c18Op
 			for i := 0; i < n; i++ {
 				ops = append(ops, c18Op{Kind: "q", Addr: rapid.SampledFrom(addrs).Draw(rt, "addr"),
-					Live: rapid.Bool().Draw(rt, "live"), ErrK: rapid.IntRange(0, 1).Draw(rt, "errk")})
+					Live: rapid.Bool().Draw(rt, "live"), ErrK: c18GenErrK(rt)})
 			}
 			rd.Workers = append(rd.Workers, ops)
 		}
